@@ -66,7 +66,6 @@ theorem clearCaches_scale (k : Rat) (ax : Ax) (items : List (GItem Rat)) :
 theorem gridResolve_gscale (hk : 0 < k) (a : AbsPos.GridArgs Rat) (st : Style Rat) :
     AbsPos.gridResolve (scale k a) (gscale k st) = scale k (AbsPos.gridResolve a st) := by
   rw [← gridResolve_scale hk]
-  rfl
 
 theorem scrollbarSize_gscale (k : Rat) (st : Style Rat) : AbsPos.scrollbarSize (gscale k st) = scale k (AbsPos.scrollbarSize st) := by
   have : AbsPos.scrollbarSize (gscale k st) = AbsPos.scrollbarSize (scale k st) := rfl
@@ -97,7 +96,6 @@ theorem alignAndPositionItem_sim (hk : 0 < k) (node : Nat) (cs : Style Rat) (ord
     fun _ _ => rfl
   simp only [hl, hlo, alignItemWithinArea_scale_zero hk, alignItemWithinArea_scale hk, scale_fst, scale_snd,
     scale_line_start, scale_line_end]
-  simp only [style_position, style_aspectRatio, style_justifySelf, style_alignSelf, style_overflow]
   refine GSim.bind (GSim.setLayout' node ?_) fun _ _ _ => ?_
   · simp only [scale_l_mk, scale_point_mk, scale_rect_mk, scale_fst, scale_snd, scale_line_start, scale_line_end]
   · refine GSim.pure ?_
